@@ -1578,6 +1578,11 @@ func (t *ftr) block(list []ast.Stmt, k func() string) string {
 		return t.block(append(append([]ast.Stmt{}, s.List...), list[1:]...), k)
 	case *ast.IfStmt:
 		mk := func() string {
+			if joinIfs {
+				if r, ok := t.joinedIf(s, restK); ok {
+					return r
+				}
+			}
 			cond := t.expr(s.Cond)
 			pend := t.takePending()
 			th := t.block(s.Body.List, restK)
@@ -1895,6 +1900,132 @@ func hasOwnBreak(body *ast.BlockStmt) bool {
 	}
 	ast.Inspect(body, walk)
 	return found
+}
+
+// joinedIf renders an always-falling-through if statement with a join point (see joinIfs).
+func (t *ftr) joinedIf(s *ast.IfStmt, restK func() string) (string, bool) {
+	var elseList []ast.Stmt
+	switch e := s.Else.(type) {
+	case nil:
+	case *ast.BlockStmt:
+		elseList = e.List
+	default:
+		return "", false // else-if chains keep the continuation-passing form
+	}
+	simple := func(list []ast.Stmt) bool {
+		ok := true
+		for _, st := range list {
+			ast.Inspect(st, func(n ast.Node) bool {
+				switch x := n.(type) {
+				case *ast.FuncLit:
+					return false
+				case *ast.ReturnStmt, *ast.BranchStmt, *ast.ForStmt, *ast.RangeStmt, *ast.IfStmt, *ast.SwitchStmt:
+					_ = x
+					ok = false
+				case *ast.CallExpr:
+					var id *ast.Ident
+					switch f := x.Fun.(type) {
+					case *ast.Ident:
+						id = f
+					case *ast.SelectorExpr:
+						id = f.Sel
+					}
+					if id != nil {
+						if callee, isFn := t.pi.info.Uses[id].(*types.Func); isFn && callee.Pkg() != nil && (callee.Pkg() == t.pi.pkg || calleePkgOK(callee.Pkg())) {
+							cd, cpi := t.dir, t.pi
+							if callee.Pkg() != t.pi.pkg {
+								cd = dirOfPkg(callee.Pkg())
+								cpi = loadPkg(cd)
+							}
+							cfn := callee.Name()
+							if sig, isSig := callee.Type().(*types.Signature); isSig && sig.Recv() != nil {
+								if nn := namedOf(sig.Recv().Type()); nn != nil {
+									cfn = nn.Obj().Name() + "." + callee.Name()
+								}
+							}
+							if needsFuel(cpi, cd, cfn) {
+								ok = false
+							}
+						}
+					}
+				}
+				return ok
+			})
+		}
+		return ok
+	}
+	if s.Init != nil || !simple(s.Body.List) || !simple(elseList) {
+		return "", false
+	}
+	// variables the branches assign that live outside the statement
+	seen := map[types.Object]bool{}
+	var vars []types.Object
+	note := func(e ast.Expr) {
+		id := rootIdent(e)
+		if id == nil || id.Name == "_" {
+			return
+		}
+		obj := t.pi.info.Uses[id]
+		v, isVar := obj.(*types.Var)
+		if !isVar || v.IsField() || (v.Pos() >= s.Pos() && v.Pos() < s.End()) || seen[obj] {
+			return
+		}
+		seen[obj] = true
+		vars = append(vars, obj)
+	}
+	for _, list := range [][]ast.Stmt{s.Body.List, elseList} {
+		for _, st := range list {
+			ast.Inspect(st, func(n ast.Node) bool {
+				switch x := n.(type) {
+				case *ast.AssignStmt:
+					for _, l := range x.Lhs {
+						note(l)
+					}
+				case *ast.IncDecStmt:
+					note(x.X)
+				case *ast.ExprStmt:
+					if c, isCall := x.X.(*ast.CallExpr); isCall {
+						if id, isId := c.Fun.(*ast.Ident); isId && id.Name == "copy" && len(c.Args) == 2 {
+							note(c.Args[0])
+						}
+						if sel, isSel := c.Fun.(*ast.SelectorExpr); isSel {
+							if fn, isFn := t.pi.info.Uses[sel.Sel].(*types.Func); isFn && strings.HasPrefix(fn.FullName(), "(encoding/binary.bigEndian).Put") && len(c.Args) == 2 {
+								note(c.Args[0])
+							} else if _, _, isMut := t.mutatorCall(c); isMut {
+								note(sel.X)
+							}
+						}
+					}
+				}
+				return true
+			})
+		}
+	}
+	sort.Slice(vars, func(i, j int) bool { return vars[i].Pos() < vars[j].Pos() })
+	if len(vars) == 0 {
+		return "", false
+	}
+	var names []string
+	for _, v := range vars {
+		names = append(names, t.nameOf(v))
+	}
+	tuple := names[0]
+	if len(names) > 1 {
+		tuple = "(" + strings.Join(names, ", ") + ")"
+	}
+	cond := t.expr(s.Cond)
+	pend := t.takePending()
+	join := func() string { return tuple }
+	th := t.block(s.Body.List, join)
+	el := tuple
+	if elseList != nil {
+		el = t.block(elseList, join)
+	}
+	pat := tuple
+	if len(names) > 1 {
+		pat = "'" + tuple
+	}
+	return t.wrapPending(pend, "(let "+pat+" := (if "+cond+"\n  then "+th+"\n  else "+el+") in\n  "+restK()+")"), true
 }
 
 // loopNext: run the post statement and go round again.
@@ -2303,6 +2434,12 @@ func needsFuel(pi *pkgInfo, dir, fn string) bool {
 	return res
 }
 
+// joinIfs (item flag "join_ifs"): an if statement whose branches always fall through (no return, break,
+// continue, loop or fuel-needing call inside) is translated with a join point —
+// `let '(vars) := if c then … else … in rest` over the variables the branches assign — instead of
+// copying the rest of the function into both branches. A run of n such statements is then linear, not 2^n.
+var joinIfs bool
+
 var allowParamMutation bool
 
 // asciiStrings: strings.ToLower / EqualFold are translated as their ASCII restrictions (item flag
@@ -2482,6 +2619,7 @@ func doPureFunc(it Item) {
 	allowParamMutation = it.AllowParamMutation
 	assumeNonNil = it.NonNilPointers
 	asciiStrings = it.ASCIIStrings
+	joinIfs = it.JoinIfs
 	pi := loadPkg(it.Pkg)
 	name := ensureFunc(pi, it.Pkg, it.Func, nil)
 	if it.As != "" && it.As != name {
@@ -2500,6 +2638,7 @@ func doPureFunc(it Item) {
 func doLoopFunc(it Item) {
 	rootDir = it.Pkg
 	asciiStrings = it.ASCIIStrings
+	joinIfs = it.JoinIfs
 	assumeNonNil = it.NonNilPointers
 	pi := loadPkg(it.Pkg)
 	fd := pi.findFunc(it.Func)
